@@ -175,7 +175,7 @@ theorem releaseWrite_eq {w : World} {o : Nat} {s : RwSt}
           threads := { w.exec.threads with threads :=
             (w.exec.threads.threads.mapIdx fun i th =>
               if i = w.tid then th
-              else if th.operation.any (fun op => op.obj == o) then th.setRunnable else th) } } } := by
+              else if th.operation.any (fun op => op.obj == o) then th.wake else th) } } } := by
   unfold World.releaseWrite
   simp only [getRw_of h, bind, Except.bind, pure, Except.pure]
   rw [wake_normal_form]
@@ -192,7 +192,7 @@ theorem releaseRead_last {w : World} {o : Nat} {s : RwSt} {rs : List Nat}
           threads := { w.exec.threads with threads :=
             (w.exec.threads.threads.mapIdx fun i th =>
               if i = w.tid then th
-              else if th.operation.any (fun op => op.obj == o) then th.setRunnable else th) } } } := by
+              else if th.operation.any (fun op => op.obj == o) then th.wake else th) } } } := by
   unfold World.releaseRead
   simp only [getRw_of h, hl, he, bind, Except.bind, pure, Except.pure, List.isEmpty_nil, if_true]
   rw [wake_normal_form]
